@@ -239,6 +239,9 @@ def main():
     seed = int(os.environ.get("VERIF_SEED", "0") or 0)
     lrv.install_signal_handlers()
     t0 = time.time()
+    if prop == "C13":
+        import c13gen
+        c13gen.generate(c13gen.CHIPS)   # Rust side of the byte specification, regenerated on every run
     files, allh = lrv.discover()
     hs = [h for h in allh if prop in h.props and (tier == "thorough" or h.tier == "quick")]
     if a.only:
